@@ -15,7 +15,7 @@ import json, os
 import common as C
 import framelane as F
 
-CFG = {"quick": ("MCHostile_quick.cfg", 300, 500, 10000), "thorough": ("MCHostile_thorough.cfg", 2400, 3000, 300000)}
+CFG = {"quick": ("MCHostile_quick.cfg", 300, 500, 10000), "thorough": ("MCHostile_thorough.cfg", 2400, 3000, 100000)}
 
 
 def run(tier):
@@ -60,10 +60,8 @@ def run(tier):
 
     def wait_on_complete(r):
         # a complete frame that is not an envelope, reported as "decoder wants more"
-        if r["r"] == "err" and len(r["b"]) >= 2 and r["b"][0] == 0x30 and r["b"][1] < 0x80 and len(r["b"]) >= 2 + r["b"][1]:
-            r = dict(r)
-            r["r"] = "none"
-            return r
+        if len(r["b"]) >= 2 and r["b"][0] == 0x30 and r["b"][1] < 0x80 and len(r["b"]) >= 2 + r["b"][1]:
+            return {"b": r["b"], "r": "none", "left": len(r["b"])}
         return None
     C.selftest_record(chk, "TraceHostile", "TraceHostile.cfg", tr, wait_on_complete, "waits-on-a-complete-bad-frame")
     os.remove(tr)
